@@ -353,7 +353,17 @@ SpecialFamily(z) ==
   \cup {Cfg(p, "func", a, b, <<>>, n, NoAx, FALSE, 0, 0, <<>>, t, "rr", "array", NA) :
           p \in {"dot", "matmul", "inner", "outer", "kron", "tensordot"}, a \in {<<3>>, <<2, 3>>}, b \in {<<3>>, <<3, 2>>}, n \in {0, 1}, t \in {"zero1", "zeros"}}
 
+\* ---------------------------------------------------------------- a REAL value placed, unmultiplied, into a COMPLEX array (C09, C05)
+\* f(x) = join((pre(x), C))  with C complex: the result is complex, so a complex cotangent travels back through the join and - for
+\* pre = an index expression - into the scatter buffer of a real array; the gradient of the real x must be real (its real projection).
+\* ia = pre: 0 the value itself, 1 x[identity permutation as an integer array] (ufunc.at path), 2 x[::1]; argnum = position of x in the pair
+RealIntoFamily(z) ==
+  {Cfg(p, "func", s, <<>>, <<>>, pos, NoAx, FALSE, pre, 0, <<>>, st, "rc", "array", NA) :
+      p \in {"concatenate", "stack", "hstack", "vstack", "array", "append", "column_stack"}, s \in {<<3>>, <<2, 3>>}, pos \in {0, 1}, pre \in 0..2,
+      st \in {"list", "tuple"}}
+
 Space == CASE Family = "binary" -> BinaryFamily(0)
+           [] Family = "realinto" -> RealIntoFamily(0)
            [] Family = "special" -> SpecialFamily(0)
            [] Family = "extend" -> ExtendFamily(0)
            [] Family = "where" -> WhereFamily(0)
